@@ -62,7 +62,10 @@ def run_sfcf(pe, acc, case, d):
     # deviation bound over (name, quarks, offset, wf, wf2): all with at most two coordinates away from the default
     def dev(s):
         return (s[3] != 0) + (s[4] != 0) + (s[5] != 0) + (s[6] != 0)
-    specs = [s for s in specs if dev(s) <= 2]
+    # ... plus, for every name, the block in which every coordinate takes its last value (the last block of that name in a file;
+    # for the last name of a compact file the last block of the file)
+    last = lambda s: s[3] == len(sf.QUARKS) - 1 and s[4] == sf.OFFSETS[-1] and s[5] == sf.WFS[-1] and s[6] == (sf.WFS[-1] if s[1] != 'bi' else 0)   # noqa: E731
+    specs = [s for s in specs if dev(s) <= 2 or last(s)]
     for si, (name, typ, T, qi, off, w, w2) in enumerate(specs):
         orders = envpatch.orders(nent) if dev((name, typ, T, qi, off, w, w2)) == 0 else [list(range(nent)), list(range(nent))[::-1]]
         for im in (False, True):
